@@ -335,7 +335,7 @@ Snapshot(es, rs) == [dbs |-> [e \in DOMAIN es |-> DbView(es[e])],
 Rec(op, obs, es, rs) == Append(hist, [op |-> op, obs |-> obs, st |-> Snapshot(es, rs)])
 
 NewRun(e, goal, qnv) ==
-  [e |-> e, status |-> "fresh", goals |-> <<F(CallB(goal), 0)>>, cps |-> <<>>, s |-> <<>>,
+  [e |-> e, status |-> "fresh", goals |-> <<F(CallB(goal), 0)>>, cps |-> <<>>, s |-> <<>>, qargs |-> ArgsOf(goal),
    nv |-> qnv, qnv |-> qnv, bags |-> <<>>, evs |-> {}, nlog |-> <<>>, nans |-> 0]
 
 RunActive(r) == r \in DOMAIN runs /\ runs[r].status \in {"fresh", "susp"}
@@ -429,6 +429,10 @@ EngOf(c, g) == [g EXCEPT !.db = c.db, !.nf = c.nf, !.ncalls = c.ncalls]
 AnswerOf(c) == CanonSeq([i \in 1..c.qnv |-> Resolve(V(i - 1), c.s)])
 WantPy == "py" \in DOMAIN Scn
 PyOf(ans) == IF WantPy THEN [i \in DOMAIN ans |-> ToPy(ans[i])] ELSE <<>>
+\* the goal's own argument terms as they stand at the answer (a consumer may apply get_value /
+\* to_python to the terms it passed in, not only to its variables)
+ArgsAt(c) == IF WantPy THEN CanonSeq([i \in DOMAIN c.qargs |-> Resolve(c.qargs[i], c.s)]) ELSE <<>>
+PyArgsAt(c) == LET a == ArgsAt(c) IN [i \in DOMAIN a |-> ToPy(a[i])]
 SolveObs(answers, end, nlog) ==
   [k |-> "solve", answers |-> answers, end |-> end, nlog |-> nlog,
    pys |-> IF WantPy THEN [i \in DOMAIN answers |-> PyOf(answers[i])] ELSE <<>>]
@@ -463,7 +467,7 @@ Micro ==
              IF cur.mode = "next"
              THEN LET rs == [runs EXCEPT ![r] = RunOf(c1)] IN
                   /\ runs' = rs
-                  /\ hist' = Rec(cur.op, [k |-> "answer", ans |-> ans, py |-> PyOf(ans), nlog |-> c.nlog], es, rs)
+                  /\ hist' = Rec(cur.op, [k |-> "answer", ans |-> ans, py |-> PyOf(ans), gargs |-> ArgsAt(c), pyargs |-> PyArgsAt(c), nlog |-> c.nlog], es, rs)
                   /\ cur' = NoCur /\ Advance(cur.t) /\ UNCHANGED halted
              ELSE \* solve: collect; after the k-th answer the query is closed
                   IF cur.left = 1
